@@ -55,6 +55,8 @@ var mirrorType = map[MessageType]MessageType{
 	MsgGetAccessSpecsResponse:        MsgGetAccessSpecs,
 	MsgGetReaderCapabilities:         MsgGetReaderCapabilitiesResponse,
 	MsgGetReaderCapabilitiesResponse: MsgGetReaderCapabilities,
+	MsgGetROSpecs:                    MsgGetROSpecsResponse,
+	MsgGetROSpecsResponse:            MsgGetROSpecs,
 	MsgGetReaderConfig:               MsgGetReaderConfigResponse,
 	MsgGetReaderConfigResponse:       MsgGetReaderConfig,
 	MsgGetSupportedVersion:           MsgGetSupportedVersionResponse,
